@@ -2590,3 +2590,158 @@ func RLmStart(c *core.Ctx) {
 		c.Anchor("the function that stores a landmark-derived candidate into Runtextpos")
 	}
 }
+
+// ---------------------------------------------------------------------------
+// R-PRESCANSIB: the capture pre-scan and the main parse read the SAME text.
+// scanCharSet runs in both (scanOnly = true / false).  What it does to the
+// class may differ between the two modes; how far it moves through the pattern
+// may not: wherever a branch on scanOnly contains calls that consume pattern
+// text (a recursive scanCharSet for a subtraction, moveRight, the scan*
+// helpers), the other side of that branch consumes the same.  Otherwise the
+// pre-scan sees a `)` or `(` of a nested class as a group boundary and the two
+// passes disagree on group numbers and on where inline options end.
+// ---------------------------------------------------------------------------
+
+func RPrescanSib(c *core.Ctx) {
+	c.Rule("R-PRESCANSIB", "in every parser method with a scan-only mode parameter, each branch on that parameter consumes the same pattern text on both sides: the position-moving calls (moveRight*, textto, recursive scanCharSet, scan* helpers that move) under `!scanOnly` have their twins under `scanOnly`", 2)
+	p := c.P
+	syn := p.Pkg("syntax")
+	info := syn.TypesInfo
+	prims := map[*types.Func]bool{}
+	for _, nm := range []string{"parser.moveRight", "parser.moveRightGetChar", "parser.moveLeft", "parser.textto"} {
+		if f := p.LookupFunc("syntax", nm); f != nil {
+			prims[f] = true
+		}
+	}
+	if len(prims) < 3 {
+		c.Anchor("the parser's position primitives")
+		return
+	}
+	movesMemo := map[*types.Func]bool{}
+	var moves func(fn *types.Func, depth int) bool
+	moves = func(fn *types.Func, depth int) bool {
+		if fn == nil {
+			return false
+		}
+		if prims[fn] {
+			return true
+		}
+		if v, ok := movesMemo[fn]; ok {
+			return v
+		}
+		movesMemo[fn] = false
+		if depth > 5 || fn.Pkg() != syn.Types {
+			return false
+		}
+		fd, _ := p.DeclOf(fn)
+		if fd == nil || fd.Body == nil {
+			return false
+		}
+		res := false
+		ast.Inspect(fd.Body, func(x ast.Node) bool {
+			if call, ok := x.(*ast.CallExpr); ok && !res {
+				if cal := core.Callee(info, call); cal != nil && cal != fn && moves(cal, depth+1) {
+					res = true
+				}
+			}
+			return !res
+		})
+		movesMemo[fn] = res
+		return res
+	}
+	n := 0
+	for _, fd := range p.FuncDecls(syn) {
+		if fd.Body == nil || fd.Recv == nil || p.IsTestFile(fd.Pos()) || fd.Type.Params == nil {
+			continue
+		}
+		self, _ := info.Defs[fd.Name].(*types.Func)
+		// the mode parameter: a bool parameter named scanOnly (resolved through the baseline when renamed is not possible for parameters: matched by name)
+		var mode types.Object
+		for _, f := range fd.Type.Params.List {
+			for _, id := range f.Names {
+				if strings.EqualFold(id.Name, "scanOnly") {
+					mode = info.ObjectOf(id)
+				}
+			}
+		}
+		if mode == nil {
+			continue
+		}
+		name := core.DeclName(syn, fd)
+		movers := func(n ast.Node) map[string]int {
+			out := map[string]int{}
+			if n == nil {
+				return out
+			}
+			ast.Inspect(n, func(x ast.Node) bool {
+				// do not descend into nested branches on the mode: they are judged on their own
+				if ifs, ok := x.(*ast.IfStmt); ok && x != n {
+					if modeTest(info, ifs.Cond, mode) != 0 {
+						return false
+					}
+				}
+				if call, ok := x.(*ast.CallExpr); ok {
+					cal := core.Callee(info, call)
+					if cal != nil && (cal == self || moves(cal, 0)) {
+						out[core.BaseName(cal)]++
+					}
+				}
+				return true
+			})
+			return out
+		}
+		ord := 0
+		ast.Inspect(fd.Body, func(x ast.Node) bool {
+			ifs, ok := x.(*ast.IfStmt)
+			if !ok {
+				return true
+			}
+			pol := modeTest(info, ifs.Cond, mode)
+			if pol == 0 {
+				return true
+			}
+			var a, b map[string]int // a: main parse side, b: scan-only side
+			var elseNode ast.Node
+			if ifs.Else != nil {
+				elseNode = ifs.Else
+			}
+			if pol < 0 { // if !scanOnly { main } else { prescan }
+				a, b = movers(ifs.Body), movers(elseNode)
+			} else {
+				a, b = movers(elseNode), movers(ifs.Body)
+			}
+			if len(a) == 0 && len(b) == 0 {
+				return true
+			}
+			n++
+			ord++
+			c.Visit(name)
+			same := len(a) == len(b)
+			for k, v := range a {
+				if b[k] != v {
+					same = false
+				}
+			}
+			c.Check(same, fmt.Sprintf("%s / branch #%d on %s consumes the same pattern text in both modes", name, ord, mode.Name()), ifs.Pos(), "position-moving calls in the main parse: %v; in the pre-scan: %v — the pre-scan then stands at a different place in the pattern, reads members of a nested class as pattern syntax, and the two passes disagree on groups and option scopes", a, b)
+			return true
+		})
+	}
+	if n == 0 {
+		c.Anchor("branches on a scanOnly parameter that consume pattern text")
+	}
+}
+
+// modeTest: cond is `mode` (+1), `!mode` (-1) or something else (0).
+func modeTest(info *types.Info, cond ast.Expr, mode types.Object) int {
+	e := ast.Unparen(cond)
+	if u, ok := e.(*ast.UnaryExpr); ok && u.Op == token.NOT {
+		if id, ok := ast.Unparen(u.X).(*ast.Ident); ok && info.ObjectOf(id) == mode {
+			return -1
+		}
+		return 0
+	}
+	if id, ok := e.(*ast.Ident); ok && info.ObjectOf(id) == mode {
+		return 1
+	}
+	return 0
+}
